@@ -157,7 +157,7 @@ class Engine(EngineBase):
             "exclude": rng.choice([None, None, None, r".*\.log", r"f1", r"sub", r"f", r"log", r"1", r"g", r"x\.lo$",
                                    # patterns that also match signac's own files (state point, document)
                                    r".*\.json", r"signac", r".*"]),
-            "selection": None, "selection_kind": rng.choice(["job", "id"]),
+            "selection": None, "selection_kind": rng.choice(["job", "id", "id", "id_gen"]),
             "check_schema": rng.random() < 0.3,
             "deep": rng.random() < 0.35,
             "dry_run": rng.random() < (0.45 if P == "C15" else 0.1),
@@ -424,8 +424,10 @@ class Run:
                 sel = None
                 if o["selection"] is not None:
                     ids = [self.sel_id(k) for k in o["selection"]]
-                    sel = ids if o["selection_kind"] == "id" else [
+                    sel = ids if o["selection_kind"] != "job" else [
                         (src if k in sc["src"]["jobs"] else dst).open_job(id=i) for k, i in zip(o["selection"], ids)]
+                    if o["selection_kind"] == "id_gen":
+                        sel = (x for x in ids)   # the selection is documented as an iterable
                 kw.update(check_schema=o["check_schema"], parallel=o["parallel"])
                 if o.get("collect_stats"):
                     kw.update(collect_stats=True)
